@@ -21,6 +21,7 @@ func checkC12(c *Ctx) {
 	c.NotCovered("that the serialised file equals the prediction of a map/list model; comment preservation of untouched items")
 	c.NotCovered("ownership of caller-supplied token slices (whether an API entry point copies the slice it is given)")
 	c.NotCovered("maintenance of nodes.first/last by ReplaceWith and InsertNode (no API path replaces or inserts before a first/last node today)")
+	c11EscapeFastPath(c) // strings set through SetAttributeValue / SetLabels are written escaped
 }
 
 // R1: the node returned by ReplaceWith is stored back into the handle it was loaded from.
